@@ -246,10 +246,27 @@ def run(pid, tier, replay):
         return parts, obs
 
     def rand_phase():
-        # impl -> spec: seeded random long histories
+        # impl -> spec: seeded random long histories (one operation in eight is "atrm": a registration and the removal
+        # of the same pair issued concurrently), plus fixed histories with atrm below 0, 1 and 2 managers
         robs = chk.path("obs_rand.ndjson")
         nr, ln = (40, 150) if quick else (600, 200)
         core.run_bin(obj, ["tree-rand", nr, ln, chk.seed, robs])
+        fixed = chk.path("cases_race.ndjson")
+        with open(fixed, "w") as f:
+            n = 0
+            for names in (["a", "b", "c"], ["a", "a", "aa"], ["dev10", "1", "dev"]):
+                for mgrs in ([], ["/"], ["/a"], ["/", "/a"]):
+                    for p in ("/a/b", "/a", "/c"):
+                        for i in ("I1", "I2"):
+                            ops = [{"op": "at", "p": m, "i": "OM", "v": k + 1} for k, m in enumerate(mgrs)]
+                            ops += [{"op": "atrm", "p": p, "i": i, "v": 7}, {"op": "at", "p": p, "i": i, "v": 8},
+                                    {"op": "atrm", "p": p, "i": i, "v": 9}, {"op": "remove", "p": p, "i": i, "v": 0}]
+                            f.write(json.dumps({"id": 900000 + n, "ops": ops, "names": names}) + "\n")
+                            n += 1
+        fobs = chk.path("obs_race.ndjson")
+        core.run_bin(obj, ["tree-replay", fixed, fobs])
+        with open(robs, "a") as f:
+            f.write(open(fobs).read())
         return robs
 
     with ThreadPoolExecutor(max_workers=3) as ex:
@@ -270,7 +287,7 @@ def run(pid, tier, replay):
         chk.add_tlc(g)
     n_all, n_cov = parts[0][2], parts[1][2]
     drift = classify(chk, pid, total, done, devs, mism)
-    n_rand = sum(1 for i in total if i >= 1000000)
+    n_rand = sum(1 for i in total if i >= 900000)
     chk.add("enumerated_cases", n_all + n_cov)
     chk.cov["exhaustive"] = len(total) - n_rand == n_all + n_cov
     chk.cov["exhaustive_scope"] = "every at/remove history of length %d over 4 paths x 3 interfaces (%d), plus %d transition-cover histories" % (
